@@ -147,6 +147,11 @@ def _run(prop, tier, test, seed, nshards, binary, outdir, t0):
         env = goenv()
         env.update({"VERIF_TIER": tier, "VERIF_SEED": str(seed), "VERIF_SHARD": str(i),
                     "VERIF_NSHARDS": str(nshards), "VERIF_OUT": outdir})
+        if PROPS[prop][3]:
+            # race reports go to a per-shard file the check reads back to attribute and sign them
+            rl = os.path.join(outdir, "race.%d" % i)
+            env["GORACE"] = "halt_on_error=0 log_path=" + rl
+            env["VERIF_RACE_LOG"] = rl
         if "GOMAXPROCS" not in os.environ and not PROPS[prop][3]:
             # one worker per core: keep each worker's GC from fighting the others
             env["GOMAXPROCS"] = str(max(2, (os.cpu_count() or 16) // nshards))
